@@ -47,6 +47,8 @@ extern long sched_max_points;
 extern int sched_signal_atomic;
 /* 1: every kernel wait may be interrupted (EINTR) as an MC_FAULT choice */
 extern int sched_fault_eintr;
+/* optional: decide that the library's next pthread_create fails (return the errno, e.g. EAGAIN) */
+extern int (*sched_create_fault)(void);
 /* 1: from now on always take the default scheduling decision (used for the tear-down tail of an execution) */
 extern int sched_no_more_choices;
 extern long sched_points;
